@@ -28,12 +28,14 @@ def deep(draw):
 # reference strings that can never form a cycle: they designate leaf definitions (subschema positions) or nothing
 # at all (missing member, index past the end of an array, a member of a string) -- never a non-schema value
 SAFE_REFS = ["#/definitions/a", "#/definitions/nope", "#/items/2", "#/items/0", "#/items/7", "#/definitions/a/type/7",
-             "#/definitions/arr/5", "#/definitions/arr/0", "#/definitions/a/enum/7", "#/definitions/a/enum/0/x",
-             "#/definitions/str/0", "#/definitions/str/x", "#/nope/nope", "#/definitions/b", "#/definitions/arr/-1",
-             "#/definitions/arr/01", "#/definitions/", "http://ex.test/unreachable.json#/x", "unreachable.json",
-             "#/definitions/a/maxLength/0", "#//", "#/%"]
-SAFE_DEFS = {"a": {"type": ["string", "null"], "enum": ["s", None]}, "b": {"minimum": 3}, "arr": [{"type": "integer"}],
-             "str": "just a string"}
+             "#/x-data/arr/5", "#/x-data/arr/0", "#/definitions/a/enum/7", "#/definitions/a/enum/0/x",
+             "#/x-data/str/0", "#/x-data/str/x", "#/nope/nope", "#/definitions/b", "#/x-data/arr/-1",
+             "#/x-data/arr/01", "#/definitions/", "http://ex.test/unreachable.json#/x", "unreachable.json",
+             "#/definitions/a/maxLength/0", "#//", "#/%", "#/x-data/arr/0%0A", "#/x-data"]
+SAFE_DEFS = {"a": {"type": ["string", "null"], "enum": ["s", None]}, "b": {"minimum": 3}}
+# an array and a string to point into; under a name no metaschema knows, so that every draft accepts the schema
+# (under `definitions` drafts 4+ reject them, and the flavour silently shrank to Draft 3)
+SAFE_DATA = {"arr": [{"type": "integer"}], "str": "just a string"}
 
 
 @st.composite
@@ -89,6 +91,7 @@ def cases(draw):
         if not isinstance(s.get("items"), list):
             s["items"] = [{"type": "string"}, {"type": "integer"}]
         s["definitions"] = copy.deepcopy(SAFE_DEFS)
+        s["x-data"] = copy.deepcopy(SAFE_DATA)
         props = {}
         for k in draw(st.lists(V.small_keys, min_size=1, max_size=3, unique=True)):
             props[k] = {"$ref": draw(st.sampled_from(SAFE_REFS))}
@@ -175,7 +178,7 @@ def risky_ref(v, in_map=False):
 def only_safe_refs(s):
     """safe-refs flavour: every $ref string comes from SAFE_REFS and the definitions are the fixed leaf set,
     so no reference can lead back into the schema (no cycles)."""
-    if not isinstance(s, dict) or s.get("definitions") != SAFE_DEFS:
+    if not isinstance(s, dict) or s.get("definitions") != SAFE_DEFS or s.get("x-data") != SAFE_DATA:
         return False
 
     def ok(v, in_map=False):
@@ -313,7 +316,9 @@ class C03(Prop):
                    "containing $ref are excluded (cycles / non-string $ref are outside the claim)",
                    "instances nested deeper than 40 levels and integers beyond 4000 digits are not generated (CPython limits)",
                    "a case that does not finish within the per-case watchdog (30 s) or stops a worker's heartbeat (75 s) is reported as a violation: the statement says every entry point finishes"]
-    GATES = {"accepted:liberal": 500, "accepted:well-meant": 500, "unusual": 300, "accepted:safe-refs": 200, "accepted:failing-handler": 150, "accepted:deep-chain": 150,
+    GATES = {"accepted:liberal": 500, "accepted:well-meant": 500, "unusual": 300, "accepted:safe-refs": 200, "accepted:failing-handler": 150, "accepted:deep-chain": 150, "accepted:safe-refs:d3": 30, "accepted:safe-refs:d4": 30, "accepted:safe-refs:d6": 30,
+             "accepted:safe-refs:d7": 30, "accepted:liberal:d3": 60, "accepted:liberal:d4": 60, "accepted:liberal:d6": 60,
+             "accepted:liberal:d7": 60,
              "raised:RefResolutionError": 100}
     MIN_NONTRIVIAL = 300
 
@@ -347,6 +352,7 @@ class C03(Prop):
             res.fail(("check_schema-crash", impl.tname(e), innermost(e)), "check_schema raised %r" % (e,))
             return res
         res.labels.append("accepted:" + case.get("flavour", "?"))
+        res.labels.append("accepted:%s:d%d" % (case.get("flavour", "?"), d))
         xs = list(case["instances"])
         if case.get("probes"):
             xs += GI.probes(s, case["probes"])[:case["probes"]]
